@@ -40,14 +40,14 @@ Definition scanner_model (bs : bytes) : list bytes := frames bs.
 Definition upload_model (bs : bytes) : list bytes :=
   match upload_bytes bs with
   | None => [[0]; []; []]
-  | Some v => if uv_complete v then [[1]; uv_written v; []] else [[0]; []; uv_written v]
+  | Some v => if upload_done_bytes bs then [[1]; uv_written v; []] else [[0]; []; uv_written v]
   end.
 
 Definition model1 (o : dop) : list bytes :=
   let '(code, args) := o in
   if (code =? 1) || (code =? 2) then control_model (a 0 args)
   else if code =? 3 then scanner_model (a 0 args)
-  else if code =? 4 then upload_model (a 0 args ++ a 2 args)
+  else if code =? 4 then upload_model (a 0 args ++ a 2 args ++ a 3 args)
   else [].
 Definition model (ops : list dop) : list (list bytes) := map model1 ops.
 
